@@ -80,3 +80,249 @@ Proof.
   - induction (row1 pre post t v) as [|a l IH]; [reflexivity|]. cbn [map existsb]. now rewrite IH.
   - apply (existsb_row1 (fun a : sarg => P (fst a))). intros s. apply H.
 Qed.
+Lemma forallb_row1_t (P : ty -> bool) pre post t v :
+  (forall dt, P (TNum dt) = true) -> forallb P (map fst (row1 pre post t v)) = P t.
+Proof.
+  intros H. unfold row1. rewrite map_app, forallb_app. cbn [map forallb fst].
+  assert (E : forall l, forallb P (map fst (map ssc l)) = true).
+  { induction l as [|s l IH]; [reflexivity|]. cbn [map forallb fst ssc]. now rewrite H, IH. }
+  rewrite !E. cbn [andb]. apply andb_true_r.
+Qed.
+
+(* ------------------------------------------------------------------ the specification on one row *)
+Lemma rpad_row1 pre post t v : is_listT t && pure_reg t = false -> rpad (row1 pre post t v) = row1 pre post t v.
+Proof.
+  intros H. apply rpad_nocond. unfold rpad_cond.
+  rewrite (existsb_row1_t is_listT) by reflexivity. rewrite (forallb_row1_t pure_reg) by reflexivity. exact H.
+Qed.
+
+Lemma leaf_zb_ssc s : sc_ok s = true -> leaf_zb (ssc s) = Ok s.
+Proof.
+  destruct s as [[|] z]; unfold sc_ok, ssc, leaf_zb, mk_leaf; cbn [fst snd negb orb]; [|reflexivity].
+  intros H. destruct z as [|[p|p|]|p]; try reflexivity; cbn in H; discriminate.
+Qed.
+Lemma mapM_leaf_zb_ssc l : forallb sc_ok l = true -> mapM leaf_zb (map ssc l) = Ok l.
+Proof.
+  induction l as [|s l IH]; [reflexivity|]. cbn [forallb map]. intros H. apply andb_prop in H as [Hs Hl].
+  rewrite mapM_cons, (leaf_zb_ssc s Hs), (IH Hl). reflexivity.
+Qed.
+
+Definition kinds1 (pre post : list sc) (b : bool) : list bool := map fst pre ++ b :: map fst post.
+Definition vals1 (pre post : list sc) (z : Z) : list Z := map snd pre ++ z :: map snd post.
+
+Lemma spec_leaf_row1 op ar fuel pre post dt d :
+  forallb sc_ok pre = true -> forallb sc_ok post = true -> is_dz d = true ->
+  spec_v op ar (S fuel) (row1 pre post (TNum dt) (leaf dt d)) =
+  Ok (mk_leaf (lk op (kinds1 pre post (dt_isbool dt)))
+              (lf op (kinds1 pre post (dt_isbool dt)) (vals1 pre post (leaf_z dt d)))).
+Proof.
+  intros Hpre Hpost Hd. rewrite spec_v_S. cbv zeta. rewrite rpad_row1 by reflexivity.
+  rewrite (existsb_row1_t badT), (existsb_row1_t is_optT), (existsb_row1_t is_listT), (existsb_row1_t is_recT) by reflexivity.
+  cbn [badT is_optT is_listT is_recT].
+  assert (Hz : mapM leaf_zb (row1 pre post (TNum dt) (leaf dt d)) = Ok (pre ++ (dt_isbool dt, leaf_z dt d) :: post)).
+  { unfold row1. rewrite mapM_app, (mapM_leaf_zb_ssc pre Hpre). cbn [bind]. rewrite mapM_cons, (leaf_value_zb dt d Hd). cbn [bind].
+    rewrite (mapM_leaf_zb_ssc post Hpost). reflexivity. }
+  rewrite Hz. cbn [bind]. unfold kinds1, vals1. rewrite !map_app. reflexivity.
+Qed.
+
+Lemma strip_opt_ssc l : map strip_opt (map ssc l) = map ssc l.
+Proof. induction l as [|[[|] z] l IH]; [reflexivity| |]; cbn [map]; rewrite IH; reflexivity. Qed.
+
+Lemma spec_opt_row1 op ar fuel pre post t' v :
+  spec_v op ar (S fuel) (row1 pre post (TOpt t') v) = if is_none v then Ok VNone else spec_v op ar fuel (row1 pre post t' v).
+Proof.
+  rewrite spec_v_S. cbv zeta. rewrite rpad_row1 by reflexivity.
+  rewrite (existsb_row1_t badT), (existsb_row1_t is_optT) by reflexivity. cbn [badT is_optT].
+  unfold none_in. rewrite (existsb_row1 (fun a : sarg => is_optT (fst a) && is_none (snd a))) by reflexivity. cbn [fst snd is_optT andb].
+  destruct (is_none v); [reflexivity|]. f_equal. unfold row1. rewrite map_app. cbn [map]. now rewrite !strip_opt_ssc.
+Qed.
+
+(* columns and rows of a list level *)
+Definition cols1 (pre post : list sc) (t' : ty) (l' : list value) (k : nat) : list (list sarg) :=
+  map (fun s => repeat (ssc s) k) pre ++ map (fun x => (t', x)) l' :: map (fun s => repeat (ssc s) k) post.
+
+Lemma column_ssc n s : column n (ssc s) = Ok (repeat (ssc s) (Z.to_nat n)).
+Proof. reflexivity. Qed.
+Lemma columns_ssc n l : mapM (column n) (map ssc l) = Ok (map (fun s => repeat (ssc s) (Z.to_nat n)) l).
+Proof. induction l as [|s l IH]; [reflexivity|]. cbn [map]. rewrite mapM_cons, column_ssc, IH. reflexivity. Qed.
+Lemma columns_row1 n pre post t v t' l' :
+  column n (t, v) = Ok (map (fun x => (t', x)) l') ->
+  mapM (column n) (row1 pre post t v) = Ok (cols1 pre post t' l' (Z.to_nat n)).
+Proof.
+  intros H. unfold row1, cols1. rewrite mapM_app, columns_ssc. cbn [bind]. rewrite mapM_cons, H. cbn [bind].
+  rewrite columns_ssc. reflexivity.
+Qed.
+
+Lemma zipcons_repeat {A} (x : A) r k : zipcons (repeat x k) (repeat r k) = repeat (x :: r) k.
+Proof. induction k as [|k IH]; [reflexivity|]. cbn [repeat zipcons]. now rewrite IH. Qed.
+Lemma transpose_reps (post : list sc) k : transpose k (map (fun s => repeat (ssc s) k) post) = repeat (map ssc post) k.
+Proof.
+  induction post as [|s post IH]; [reflexivity|]. cbn [map]. rewrite transpose_cons, IH. apply zipcons_repeat.
+Qed.
+Lemma zipcons_map_repeat {A B} (f : B -> A) r l : zipcons (map f l) (repeat r (length l)) = map (fun x => f x :: r) l.
+Proof. induction l as [|x l IH]; [reflexivity|]. cbn [map length repeat zipcons]. now rewrite IH. Qed.
+Lemma zipcons_repeat_map {A B} (x : A) (g : B -> list A) l : zipcons (repeat x (length l)) (map g l) = map (fun y => x :: g y) l.
+Proof. induction l as [|y l IH]; [reflexivity|]. cbn [map length repeat zipcons]. now rewrite IH. Qed.
+
+Lemma transpose_cols1 pre post t' l' : transpose (length l') (cols1 pre post t' l' (length l')) = rows1 pre post t' l'.
+Proof.
+  unfold cols1, rows1. induction pre as [|s pre IH].
+  - cbn [map app]. rewrite transpose_cons, transpose_reps. apply zipcons_map_repeat.
+  - cbn [map app]. rewrite transpose_cons, IH. apply zipcons_repeat_map.
+Qed.
+
+Lemma filter_listT_ssc l : filter is_listT (map fst (map ssc l)) = [].
+Proof. induction l as [|s l IH]; [reflexivity|]. exact IH. Qed.
+Lemma lists_of_row1 pre post t v : is_listT t = true -> filter is_listT (map fst (row1 pre post t v)) = [t].
+Proof.
+  intros H. unfold row1. rewrite map_app, filter_app, filter_listT_ssc. cbn [map filter fst app]. rewrite H.
+  now rewrite filter_listT_ssc.
+Qed.
+Lemma first_var_len_row1 pre post t' l : first_var_len (row1 pre post (TList None None t') (VList l)) = Ok (zlen l).
+Proof. unfold row1. induction pre as [|s pre IH]; [reflexivity|]. exact IH. Qed.
+
+Lemma spec_list_row1 op ar fuel pre post t' l :
+  spec_v op ar (S fuel) (row1 pre post (TList None None t') (VList l)) =
+  rmap VList (mapM (spec_v op ar fuel) (rows1 pre post t' l)).
+Proof.
+  rewrite spec_v_S. cbv zeta. rewrite rpad_row1 by reflexivity.
+  rewrite (existsb_row1_t badT), (existsb_row1_t is_optT), (existsb_row1_t is_listT) by reflexivity. cbn [badT is_optT is_listT].
+  unfold list_target. rewrite lists_of_row1 by reflexivity. cbn [forallb is_regT andb]. rewrite first_var_len_row1. cbn [bind].
+  rewrite (columns_row1 (zlen l) pre post _ _ t' l) by (apply column_list; reflexivity). cbn [bind].
+  replace (Z.to_nat (zlen l)) with (length l) by (unfold zlen; lia). now rewrite transpose_cols1.
+Qed.
+
+Lemma rows1_concat pre post t ps : rows1 pre post t (concat ps) = concat (map (rows1 pre post t) ps).
+Proof. unfold rows1. now rewrite concat_map. Qed.
+
+(* ------------------------------------------------------------------ the leaf engine: one buffer and 0-d scalars *)
+Definition scn (s : sc) : nparr := (fst s, ([], [snd s])).
+Definition arrs1 (pre post : list sc) (a : nparr) : list nparr := map scn pre ++ a :: map scn post.
+Definition dims1 (pre post : list sc) (n : Z) : list Z := map (fun _ => 1) pre ++ n :: map (fun _ => 1) post.
+
+Lemma to_nparr_msc l : mapM to_nparr (map msc l) = Ok (map (fun s => Some (scn s)) l).
+Proof. induction l as [|s l IH]; [reflexivity|]. cbn [map]. rewrite mapM_cons, IH. reflexivity. Qed.
+Lemma to_nparr_ins pre c post :
+  mapM to_nparr (ins pre c post) =
+  do r <- to_nparr (MC c); Ok (map (fun s => Some (scn s)) pre ++ r :: map (fun s => Some (scn s)) post).
+Proof.
+  unfold ins. rewrite mapM_app, to_nparr_msc. cbn [bind]. rewrite mapM_cons, to_nparr_msc.
+  destruct (to_nparr (MC c)); reflexivity.
+Qed.
+Lemma all_somes_arrs1 pre post r :
+  all_somes (map (fun s => Some (scn s)) pre ++ r :: map (fun s => Some (scn s)) post) =
+  match r with Some a => Some (arrs1 pre post a) | None => None end.
+Proof.
+  assert (E : forall l, all_somes (map (fun s => Some (scn s)) l) = Some (map scn l)).
+  { induction l as [|s l IH]; [reflexivity|]. cbn [map all_somes]. now rewrite IH. }
+  unfold arrs1. induction pre as [|s pre IH].
+  - cbn [map app all_somes]. rewrite E. now destruct r.
+  - cbn [map app all_somes]. rewrite IH. now destruct r.
+Qed.
+Lemma getfunction_ins op pre c post :
+  getfunction op None (ins pre c post) =
+  do r <- to_nparr (MC c);
+  match r with Some a => rmap Some (nd_apply op (arrs1 pre post a)) | None => Ok None end.
+Proof.
+  unfold getfunction. rewrite to_nparr_ins. destruct (to_nparr (MC c)) as [r|]; [|reflexivity]. cbn [bind].
+  rewrite all_somes_arrs1. now destruct r.
+Qed.
+
+Lemma rank_arrs1 pre post b sh zs :
+  fold_right Nat.max O (map (fun a : nparr => length (fst (snd a))) (arrs1 pre post (b, (sh, zs)))) = length sh.
+Proof.
+  assert (Z0 : forall l acc, fold_right Nat.max acc (map (fun a : nparr => length (fst (snd a))) (map scn l)) = acc).
+  { induction l as [|s l IH]; intros acc; [reflexivity|]. cbn [map fold_right scn fst snd length]. now rewrite IH. }
+  unfold arrs1. rewrite map_app, fold_right_app. cbn [map fold_right fst snd]. rewrite !Z0. lia.
+Qed.
+
+Lemma zip_map_same {A B C} (f : A -> B) (g : A -> C) l : zip (map f l) (map g l) = map (fun x => (f x, g x)) l.
+Proof. induction l as [|x l IH]; [reflexivity|]. cbn [map zip]. now rewrite IH. Qed.
+
+Lemma zip_arrs1 (f : nparr -> list Z) pre post a :
+  zip (map f (arrs1 pre post a)) (map (fun a : nparr => snd (snd a)) (arrs1 pre post a)) =
+  map (fun s => (f (scn s), [snd s])) pre ++ (f a, snd (snd a)) :: map (fun s => (f (scn s), [snd s])) post.
+Proof. rewrite zip_map_same. unfold arrs1. rewrite map_app. cbn [map]. now rewrite !map_map. Qed.
+
+Lemma gather_row1 (shs : sc -> list Z) (sha : list Z) m pre post zs x j :
+  (forall s, flat_ix 0 (shs s) m = 0) -> flat_ix 0 sha m = j -> get zs j = Ok x ->
+  mapM (fun sd : list Z * list Z => get (snd sd) (flat_ix 0 (fst sd) m))
+       (map (fun s => (shs s, [snd s])) pre ++ (sha, zs) :: map (fun s => (shs s, [snd s])) post) = Ok (vals1 pre post x).
+Proof.
+  intros Hs Ha Hx.
+  assert (E : forall l, mapM (fun sd : list Z * list Z => get (snd sd) (flat_ix 0 (fst sd) m)) (map (fun s => (shs s, [snd s])) l) = Ok (map snd l)).
+  { induction l as [|s l IH]; [reflexivity|]. cbn [map]. rewrite mapM_cons. cbn [fst snd]. rewrite Hs, get_cons_0, IH. reflexivity. }
+  rewrite mapM_app, E. cbn [bind]. rewrite mapM_cons. cbn [fst snd]. rewrite Ha, Hx, E. reflexivity.
+Qed.
+
+Lemma mapM_iota_get {A B} (g : Z -> res B) (h : A -> B) (zs : list A) n :
+  zlen zs = n -> (forall i x, get zs i = Ok x -> g i = Ok (h x)) -> mapM g (iota n) = Ok (map h zs).
+Proof.
+  intros Hz Hg. pose proof (zlen_nonneg zs) as Hn. apply mapM_pointwise.
+  - rewrite zlen_map, zlen_iota by lia. exact Hz.
+  - intros i Hi. rewrite zlen_iota in Hi by lia. rewrite get_iota by lia. cbn [bind].
+    destruct (get_ok zs i ltac:(lia)) as [x Hx]. rewrite get_map, Hx. cbn [rmap]. now apply Hg.
+Qed.
+
+Lemma filter_ones {A} (l : list A) : filter (fun s => negb (s =? 1)) (map (fun _ => 1) l) = [].
+Proof. induction l as [|x l IH]; [reflexivity|]. exact IH. Qed.
+Lemma dim_target_dims1 pre post n : dim_target (dims1 pre post n) = Ok n.
+Proof.
+  unfold dim_target, dims1. rewrite filter_app, filter_ones. cbn [app filter]. rewrite filter_ones.
+  destruct (n =? 1) eqn:E; cbn [negb forallb]; f_equal; lia.
+Qed.
+Lemma dim_target_ones {A} (l : list A) : dim_target (map (fun _ => 1) l) = Ok 1.
+Proof. unfold dim_target. now rewrite filter_ones. Qed.
+Lemma transpose1_map ds : transpose 1 (map (fun d : Z => [d]) ds) = [ds].
+Proof. induction ds as [|d ds IH]; [reflexivity|]. cbn [map]. rewrite transpose_cons, IH. reflexivity. Qed.
+Lemma transpose2_map ds : transpose 2 (map (fun d : Z => [1; d]) ds) = [map (fun _ => 1) ds; ds].
+Proof. induction ds as [|d ds IH]; [reflexivity|]. cbn [map]. rewrite transpose_cons, IH. reflexivity. Qed.
+
+Lemma multi_N N : multi [N] = map (fun i => [i]) (iota N).
+Proof. cbn [multi]. induction (iota N) as [|i l IH]; [reflexivity|]. cbn [flat_map map app]. f_equal; exact IH. Qed.
+
+(* NumPy on one buffer of shape (n) and scalars *)
+Lemma nd_apply_s1 op pre post b n zs :
+  zlen zs = n ->
+  nd_apply op (arrs1 pre post (b, ([n], zs))) =
+  Ok (Numpy (if lk op (kinds1 pre post b) then DBool else DInt64) [n]
+        (map (fun x => DZ (lf op (kinds1 pre post b) (vals1 pre post x))) zs)).
+Proof.
+  intros Hz. unfold nd_apply. rewrite rank_arrs1. cbn [length].
+  assert (Hk : map fst (arrs1 pre post (b, ([n], zs))) = kinds1 pre post b).
+  { unfold arrs1, kinds1. rewrite map_app. cbn [map fst]. now rewrite !map_map. }
+  rewrite Hk.
+  assert (Hsh : map (fun a : nparr => pad_shape 1 (fst (snd a))) (arrs1 pre post (b, ([n], zs))) = map (fun d : Z => [d]) (dims1 pre post n)).
+  { unfold arrs1, dims1. rewrite !map_app. cbn [map]. now rewrite !map_map. }
+  rewrite Hsh at 1. rewrite transpose1_map. cbn [mapM]. rewrite dim_target_dims1. cbn [bind].
+  rewrite multi_N, mapM_map.
+  rewrite (mapM_iota_get _ (fun x => DZ (lf op (kinds1 pre post b) (vals1 pre post x))) zs n Hz); [reflexivity|].
+  intros i x Hx. rewrite zip_arrs1. cbn [fst snd scn].
+  rewrite (gather_row1 (fun _ => pad_shape 1 []) (pad_shape 1 [n]) [i] pre post zs x i); [reflexivity| | |exact Hx].
+  - intros s. reflexivity.
+  - pose proof (get_range _ _ _ Hx). unfold pad_shape. cbn [length Nat.sub repeat app flat_ix].
+    destruct (n =? 1) eqn:E; lia.
+Qed.
+
+(* ... and of shape (1, n): what broadcast_pack makes of a 1-d array *)
+Lemma nd_apply_s2 op pre post b n zs :
+  zlen zs = n ->
+  nd_apply op (arrs1 pre post (b, ([1; n], zs))) =
+  Ok (Numpy (if lk op (kinds1 pre post b) then DBool else DInt64) [1; n]
+        (map (fun x => DZ (lf op (kinds1 pre post b) (vals1 pre post x))) zs)).
+Proof.
+  intros Hz. unfold nd_apply. rewrite rank_arrs1. cbn [length].
+  assert (Hk : map fst (arrs1 pre post (b, ([1; n], zs))) = kinds1 pre post b).
+  { unfold arrs1, kinds1. rewrite map_app. cbn [map fst]. now rewrite !map_map. }
+  rewrite Hk.
+  assert (Hsh : map (fun a : nparr => pad_shape 2 (fst (snd a))) (arrs1 pre post (b, ([1; n], zs))) = map (fun d : Z => [1; d]) (dims1 pre post n)).
+  { unfold arrs1, dims1. rewrite !map_app. cbn [map]. now rewrite !map_map. }
+  rewrite Hsh at 1. rewrite transpose2_map. cbn [mapM]. rewrite dim_target_dims1, dim_target_ones. cbn [bind].
+  rewrite multi_1N, mapM_map.
+  rewrite (mapM_iota_get _ (fun x => DZ (lf op (kinds1 pre post b) (vals1 pre post x))) zs n Hz); [reflexivity|].
+  intros i x Hx. rewrite zip_arrs1. cbn [fst snd scn].
+  rewrite (gather_row1 (fun _ => pad_shape 2 []) (pad_shape 2 [1; n]) [0; i] pre post zs x i); [reflexivity| | |exact Hx].
+  - intros s. reflexivity.
+  - pose proof (get_range _ _ _ Hx). unfold pad_shape. cbn [length Nat.sub repeat app flat_ix].
+    change (1 =? 1) with true. cbv iota. destruct (n =? 1) eqn:E; lia.
+Qed.
